@@ -1368,7 +1368,7 @@ fc_statements = [
     dict(
         name="c_vector_out_buf_string",
         buf_args=["arg", "size", "len"],
-        c_helper="ShroudLenTrim",
+        c_helper="ShroudLenTrim ShroudStrCopy",
         cxx_local_var="scalar",
         pre_call=["{c_const}std::vector<{cxx_T}> {cxx_var};"],
         post_call=[
@@ -1391,6 +1391,7 @@ fc_statements = [
     dict(
         name="c_vector_inout_buf_string",
         buf_args=["arg", "size", "len"],
+        c_helper="ShroudLenTrim ShroudStrCopy",
         cxx_local_var="scalar",
         pre_call=[
             "std::vector<{cxx_T}> {cxx_var};",
@@ -1698,6 +1699,7 @@ fc_statements = [
         mixin=[
             "c_mixin_cfi_character_arg",
         ],
+        c_helper="ShroudStrAlloc ShroudStrFree",
         # Null terminate string.
         pre_call=[
             "char *{c_var} = "
@@ -1842,7 +1844,7 @@ fc_statements = [
         mixin=[
             "c_mixin_cfi_character_arg",
         ],
-        c_helper="ShroudStrCopy",
+        c_helper="ShroudStrCopy ShroudLenTrim",
         cxx_local_var="scalar",
         pre_call=[
             "char *{c_var} = "
